@@ -501,7 +501,7 @@ func init() {
 	fw.Register(&fw.Check{
 		ID:    "C04",
 		Level: "exploration",
-		Rule:  "an independent controller (internal/refctl, no hc import) runs pair-setup, pair-verify and encrypted requests against the real transport for every cell of an explicit input-partition grid: 9 setup codes (default, extremes, adjacent to every trivial code) × controller identifiers {UUID, 1 byte, 63, 64 bytes, multi-byte UTF-8} × 3 Ed25519 identities × X25519 keys incl. one with the high bit set × request sizes {small, 1023, 1024, 1025, 2048, 2049, 4097 bytes} × {fresh, restarted} accessory × {same, new} connection, plus one cell per code-visible shortcut: SRP A and S with a leading zero byte (found by deterministic search), accessory B with a leading zero byte (crypto/rand.Reader steered to a stream found by deterministic search), wrong setup code (must give TLV error 2, store unchanged), a wrong-code attempt followed by the right code on the same connection. quick: one-factor-at-a-time around the base cell; thorough: cross product of the small dimensions. The controller verifies every proof/signature/key the accessory produces. distinct_nontrivial = distinct cells completed",
+		Rule:  "an independent controller (internal/refctl, no hc import) runs pair-setup, pair-verify and encrypted requests against the real transport for every cell of an explicit input-partition grid: 9 setup codes (default, extremes, adjacent to every trivial code) × controller identifiers {UUID, 1 byte, 63, 64 bytes, multi-byte UTF-8} × 3 Ed25519 identities × X25519 keys incl. one with the high bit set × request sizes {small, 1023, 1024, 1025, 2048, 2049, 4097 bytes} × {fresh, restarted} accessory × {same, new} connection, plus one cell per code-visible shortcut: SRP A and S with a leading zero byte (found by deterministic search), accessory B with a leading zero byte (crypto/rand.Reader steered to a stream found by deterministic search), wrong setup code (must give TLV error 2, store unchanged), a wrong-code attempt followed by the right code on the same connection. quick: one-factor-at-a-time around the base cell; thorough: cross product of the small dimensions. The controller verifies every proof/signature/key the accessory produces. distinct_nontrivial = distinct cells completed Added cells: identifiers of 96, 97 and 124 bytes (the longest with a legal entity file name); every pairing request body delivered in two TCP segments cut at 1, 2, 3, 40, 120, 258, 300 bytes and one byte before its end; a second pair-setup of the same identifier with a new key pair (if the accessory completes it, the new key verifies and the replaced one does not); after M6 the listed entities are exactly the accessory and the controller.",
 		Run:   c04Run,
 		Replay: func(c *fw.Ctx, raw json.RawMessage) {
 			var cell c04Cell
